@@ -1,4 +1,5 @@
 import Sx.Lemmas.FailFastAll
+import Sx.Lemmas.HandleKeep
 import Sx.Props.C01
 /-
   C11 — SPI failures are reported, contained, and do not corrupt later packets.
@@ -11,7 +12,8 @@ import Sx.Props.C01
     failed transfer is literally `return code;`: no further request (so no further register
     write), and the transfer's code is what the caller gets.
   * `Prog.fwp p false Q` — `p` never invokes the receive callback after a transfer has failed.
-  * `DM.TX x` — whenever a transfer of `x` has failed, `x` ends with the handle it started with.
+  * `DM.TX x` — whenever a transfer of `x` has failed, `x` ends with the handle it started with
+    (Sx/Lemmas/HandleKeep.lean proves it for every public function that is not a packet operation).
 
   Cache content after a failed transfer is C01 (`C01_cache_coherent` covers every set of failing
   transfers).  What fault-free traffic does afterwards is C05/C06 for LoRa (whose statements
@@ -66,6 +68,36 @@ theorem C11_fsk_header_is_transactional (h : Handle) :
 theorem C11_lora_read_is_transactional (h : Handle) :
     (loraReadGuard h.expected h).fwp false (fun failed rh => failed = true → rh.2 = h) :=
   tx_loraGuard h
+
+/-- **C11, no stale state from a failed call.** Every public function other than handle creation,
+    the interrupt handler and the three FSK/OOK transmit calls, with any arguments on any handle: if
+    one of its transfers failed, the handle is exactly what it was before the call — the driver's
+    view of the configuration (header mode and implicit length, packet format, CRC type, hop list,
+    modulation, mode) never runs ahead of a chip that was not written.  Proving this for
+    `sx127x_lora_set_implicit_header`, `sx127x_lora_tx_set_explicit_header` and
+    `sx127x_lora_set_frequency_hopping` is what exposed fix fe89473. -/
+theorem C11_failed_call_keeps_handle (cap fuel : Nat) (a : Api) (hp : a.isPacketOp = false) (h : Handle) :
+    (Api.prog cap fuel a h).fwp false (fun failed rh => failed = true → rh.2 = h) :=
+  (tx_api cap fuel a hp).q h
+
+/-- **C11, the transmit calls included.** Every public function except handle creation and the
+    interrupt handler: after a failed transfer the handle differs from the one before the call at
+    most in the per-packet fields (frame buffer, frame length, bytes sent) — which the next
+    transmit call or received packet overwrites before using them (C04, C03). -/
+theorem C11_failed_call_keeps_configuration (cap fuel : Nat) (a : Api) (hirq : a.isIrq = false) (hc : a ≠ .create)
+    (h : Handle) :
+    (Api.prog cap fuel a h).fwp false (fun failed rh => failed = true → h.cfgEq rh.2) :=
+  cfg_api cap fuel a hirq hc h
+
+/-- non-vacuity: the setters repaired by fe89473 are covered by the exact statement, and `cfgEq`
+    distinguishes handles that differ in a configuration field -/
+example : (Api.loraSetImplicitHeader (some (10, true, 1))).isPacketOp = false
+    ∧ (Api.loraSetFrequencyHopping 5 (some [868000000]) 1).isPacketOp = false
+    ∧ ¬ ({ implicitHeader := true, expected := 10 } : Handle).cfgEq ({} : Handle)
+    ∧ ({ expected := 10 } : Handle).cfgEq ({} : Handle) := by
+  refine ⟨rfl, rfl, ?_, rfl⟩
+  intro h
+  exact absurd (congrArg Handle.implicitHeader h) (by decide)
 
 /-- **C11, cache.** (C01) After any history with any set of failing transfers the cache holds only
     values the chip's active page would return. -/
